@@ -35,7 +35,7 @@ OUTSIDE = ['documents with more than %d structural mutation(s) of a valid shape'
 
 
 # types explored one top-level field / tag / subtype at a time (the rest of the document is a fixed valid instance)
-FOCUS = ('cat.HasUnions', 'cat.Nest', 'cat.Maps', 'cat.UsesAliases', 'cat.Prims', 'cat.Opt', 'cat.UO', 'cat.Lists',
+FOCUS = ('cat.TreeAlias', 'cat.HasUnions', 'cat.Nest', 'cat.Maps', 'cat.UsesAliases', 'cat.Prims', 'cat.Opt', 'cat.UO', 'cat.Lists',
          'cat.Leaf', 'cat.WithBytes', 'cat.Res', 'cat.ResC', 'cat.UCChild', 'cat.Mid', 'cat.TagDefaults', 'cat.Colls', 'cat.UColl')
 
 
